@@ -876,3 +876,100 @@ if __name__ == "__main__":
         print("=" * 30, i, mode)
         print(gen_doc(rng, 6, 12, mode, ("dollarmath", "amsmath", "deflist", "fieldlist", "strikethrough",
                                          "attrs_inline", "attrs_block", "tasklist")))
+
+
+# ------------------------------------------------------------------------------------------ dynamic syntax
+# Documents that contain directives, roles, substitutions and front matter (round 2): the model treats the result of
+# each run as an oracle answered with what the real run produced, and checks where and how often it is spliced.
+
+DYN_EXTS = ["colon_fence", "substitution"]
+
+DIRECTIVE_BLOCKS = [
+    "```{note}\nhello *w*\n```", "```{warning}\nA `b` c.\n\nSecond para.\n```", "```{tip}\n- a\n- b\n```",
+    "```{admonition} A Title\n:class: big\n\nbody\n```", "```{image} a.png\n```", "```{image} a.png\n:alt: x y\n:width: 10px\n```",
+    "```{figure} a.png\ncaption *text*\n```", "```{code-block} python\nx = 1\n```",
+    "```{code-block} python\n:linenos:\n:emphasize-lines: 1\n\nx = 1\ny = 2\n```", "```{code} c\nint x;\n```",
+    "```{math}\na^2 + b^2\n```", "```{epigraph}\nquote\n\n-- me\n```", "```{topic} T\nbody\n```", "```{rubric} Rub\n```",
+    "```{unknown-dir} arg\nbody\n```", "```{raw} html\n<b>x</b>\n```", "```{note}\n```", "```{note} first line\nmore\n```",
+    "````{note}\n```{tip}\ninner\n```\n````", "```{note}\n[x](http://a.b) and {sub}`r`\n```",
+    "```{list-table}\n* - a\n  - b\n```", "```{contents}\n```", "```{note}\n# heading inside\n```",
+    "```{note}\nsee [^fn]\n```", "```{note}\n:name: nm\n\nnamed\n```", "```{eval-rst}\n*rst*\n```",
+    "```{parsed-literal}\na *b*\n```", "```{line-block}\na\nb\n```", "```{container} cls\nx\n```",
+    "```{highlight} c\n```", "```{only} html\nx\n```", "```{versionadded} 1.0\nnew\n```", "```{centered} mid\n```",
+    "```{note}\n---\n```", "```{note}\n(tgt)=\ntext\n```", "```{class} cc\n```",
+]
+COLON_BLOCKS = [
+    ":::{note}\ncolon *w*\n:::", ":::{tip}\n- a\n:::", "::::{note}\n:::{tip}\ninner\n:::\n::::", ":::{image} a.png\n:::",
+    ":::{note}\n:class: k\n\nbody\n:::", ":::name\ndiv body\n:::", ":::\nplain div\n:::", ":::{unknown-dir}\nx\n:::",
+]
+ROLES = [
+    "{abbr}`x (y)`", "{sub}`q`", "{sup}`q`", "{code}`a b`", "{math}`x^2`", "{emphasis}`e`", "{strong}`s`", "{literal}`l`",
+    "{unknownrole}`x`", "{ref}`lab`", "{doc}`index`", "{eq}`l`", "{raw}`r`", "{title-reference}`t`", "{kbd}`Ctrl`",
+    "{file}`a/{b}`", "{samp}`x{y}`", "{download}`f.txt`", "{term}`tt`", "{numref}`n`", "{pep}`8`", "{rfc}`2822`",
+    "{code}``", "{sub}` `", "{math}`\\alpha`",
+]
+FRONT_MATTERS = [
+    "---\ntitle: T\n---", "---\na: b\nauthor: me\n---", "---\nmyst:\n  substitutions:\n    key: \"val *x*\"\n    k2: 3\n---",
+    "---\n- not\n- a dict\n---", "---\na: [unclosed\n---", "---\ndate: 2020-01-01\nfield: \"*md* text\"\n---", "---\n---",
+    "---\nmyst:\n  substitutions:\n    key: |\n      ```{note}\n      sub note\n      ```\n---",
+]
+SUBSTS = ["{{ key }}", "{{ k2 }}", "{{ undefined }}", "{{ key | upper }}", "{{ 1 + 1 }}", "{{ key }} and {{ key }}",
+          "{{ env.docname }}", "{{ \"*lit*\" }}"]
+
+
+def gen_dynamic_doc(rng, mode="myst", exts=(), max_depth=4, size=6):
+    """A document that mixes static content (gen_doc) with directives, roles, substitutions and front matter."""
+    exts = list(exts)
+    parts = []
+    if rng.random() < 0.35:
+        parts.append(rng.choice(FRONT_MATTERS))
+    n = rng.randint(1, 5)
+    for _ in range(n):
+        r = rng.random()
+        if r < 0.30:
+            parts.append(gen_doc(rng, max_depth=rng.randint(1, max_depth), size=rng.randint(1, size), mode=mode,
+                                 exts=exts).rstrip("\n"))
+        elif r < 0.55:
+            b = rng.choice(DIRECTIVE_BLOCKS)
+            q = rng.random()
+            if q < 0.15:
+                b = "\n".join("> " + l if l else ">" for l in b.split("\n"))
+            elif q < 0.30:
+                b = "- " + "\n".join(("  " + l if l else "") for l in b.split("\n")).lstrip(" ")
+            elif q < 0.36:
+                b = "1. para\n\n" + "\n".join(("   " + l if l else "") for l in b.split("\n"))
+            parts.append(b)
+        elif r < 0.65:
+            parts.append(rng.choice(COLON_BLOCKS))
+        elif r < 0.85:
+            words = [rng.choice(WORDS) for _ in range(rng.randint(0, 3))]
+            words.insert(rng.randint(0, len(words)), rng.choice(ROLES))
+            if rng.random() < 0.3:
+                words.insert(rng.randint(0, len(words)), rng.choice(ROLES))
+            if rng.random() < 0.2:
+                words.insert(rng.randint(0, len(words)), rng.choice(SUBSTS))
+            line = " ".join(words)
+            q = rng.random()
+            if q < 0.15:
+                line = "# " + line
+            elif q < 0.3:
+                line = "*" + line + "*"
+            elif q < 0.4:
+                line = "[" + line + "](http://x.org)"
+            elif q < 0.5:
+                line = "| h |\n|---|\n| " + line + " |"
+            parts.append(line)
+        else:
+            parts.append(rng.choice(SUBSTS))
+    return "\n\n".join(parts) + "\n"
+
+
+SEED_DYNAMIC = [
+    "# T\n\n```{note}\nhello *w*\n```\n\n{abbr}`x (y)` and {sub}`q`\n\n:::{tip}\nyo\n:::\n",
+    "```{image} a.png\n:alt: x\n```\n\ntext {code}`a b`\n",
+    "```{code-block} python\nx=1\n```\n",
+    "---\na: b\n---\n\n# h\n\n{{ x }} and\n\n{{ x }}\n",
+    "---\nmyst:\n  substitutions:\n    key: \"val *x*\"\n---\n\n{{ key }}\n\n- {{ key }} in item\n",
+    "> ```{note}\n> quoted\n> ```\n\n- ```{tip}\n  in list\n  ```\n- {sup}`2`\n",
+    "# A\n\n```{note}\nn1\n```\n\n## B\n\n```{note}\nn1\n```\n\n{unknownrole}`x` [^f]\n\n[^f]: foot {sub}`s`\n",
+]
